@@ -38,6 +38,15 @@ _COMP = {
 }
 
 
+# a short-integration computer (stateful across chunks): what one utterance leaves behind must not reach the next
+_COMP_SI = {
+    "kind": "si", "S": 8, "S_top": False, "frame_style": "causal", "include_energy": True, "pad": False, "window": None,
+    "use_log": True, "use_power": False,
+    "bank": {"alias": "gabor", "num_filts": 3, "low_hz": 20.0, "high_hz": 500.0, "sampling_rate": 1000, "scale": {"alias": "mel"},
+             "erb": False, "scale_l2_norm": False},
+}
+
+
 # utterance ids of different lengths with prefix / substring relations in both map orders
 _ID_POOLS = (
     ("utt10", "utt1", "utt", "spk-utt10", "ab", "a"),
@@ -67,23 +76,32 @@ def _setup(case, td):
     os.makedirs(raw)
     mp = os.path.join(td, "map.txt")
     ids = []
+    archive = {}
     with open(mp, "w") as f:
         for i, n in enumerate(case["lens"]):
             rng = np.random.Generator(np.random.PCG64(case["seed"] * 1000 + i))
-            p = os.path.join(raw, "s%d.npy" % i)
-            np.save(p, (rng.standard_normal(n) * 100).astype(np.float32))
+            sig = (rng.standard_normal(n) * 100).astype(np.float32)
             utt = _utt_id(case, i)
+            if case.get("archive"):
+                # all signals in one numpy archive, keyed by utterance id (every map line names the same path)
+                p = os.path.join(raw, "all.npz")
+                archive[utt] = sig
+            else:
+                p = os.path.join(raw, "s%d.npy" % i)
+                np.save(p, sig)
             ids.append(utt)
             if case.get("blank_lines") and i in (1, 3):
                 f.write("\n" if i == 1 else "   \n")  # the map parser skips empty / whitespace-only lines
             f.write("%s %s\n" % (utt, p))
+    if archive:
+        np.savez(os.path.join(raw, "all.npz"), **archive)
     return mp, ids
 
 
 def _args(case, mp, outdir, manifest, workers):
     a = [mp]
     if case.get("comp", True):
-        a.append(json.dumps(computer_config(_COMP)))
+        a.append(json.dumps(computer_config(_COMP_SI if case["comp"] == "si" else _COMP)))
     a += [outdir, "--seed", str(case["seed"]), "--preprocess", json.dumps([{"alias": "dither", "coeff": case["dither"]}])]
     if manifest:
         a += ["--manifest", manifest]
@@ -284,9 +302,10 @@ def _base():
         blank_lines=st.booleans(),
         ids=st.integers(0, 3),
         dither=st.sampled_from([1.0, 1.0, 5.0]),
-        comp=st.sampled_from([True, True, False]),
+        comp=st.sampled_from([True, True, False, "si"]),
         # later invocations (resume / other worker count) in a new interpreter with another PYTHONHASHSEED, or in a fork
         fresh=st.sampled_from([None, None, 1, 2]),
+        archive=st.sampled_from([False, False, True]),
         file_prefix=st.sampled_from([None, None, None, "feat_", "x."]),
         file_suffix=st.sampled_from([None, None, None, ".feat", ".pt.bak"]),
     )
@@ -334,10 +353,16 @@ def _grid(tier):
     nmax = 5 if tier == "thorough" else 3
     counts = range(1, nmax + 1) if tier == "thorough" else (3,)
     lens_all = [40, 25, 9, 64, 17]
-    # a map of 300 utterances interrupted late: few are pending on resume, at positions beyond 256 (any per-utterance
+    # a stateful (short-integration) computer and utterances too short for a frame right before longer ones: the resumed
+    # process starts the following utterance with a computer that never saw the short one
+    for k, phase, kind, w in ((2, "before_save", "hard", 0), (4, "after_save", "soft", 0), (2, "before_save", "hard", 2)):
+        yield {"lens": [40, 3, 25, 3, 17], "seed": 7, "ids": 0, "blank_lines": False, "dither": 1.0, "comp": "si",
+               "crash": {"k": k, "phase": phase, "kind": kind}, "workers": w, "delays": [5, 0] if w else None, "fresh": None,
+               "file_prefix": None, "file_suffix": None}
+    # a map of 261 utterances interrupted late: few are pending on resume, at positions beyond 256 (any per-utterance
     # bookkeeping held in a narrow integer type wraps there)
-    for k, phase, kind, fresh in ((270, "before_save", "hard", None), (299, "after_save", "soft", 3)) if tier == "thorough" else ((270, "before_save", "hard", None),):
-        yield {"lens": [9, 3, 17] * 100, "seed": 5, "ids": 1, "blank_lines": False, "dither": 1.0, "comp": False,
+    for k, phase, kind, fresh in ((258, "before_save", "hard", None), (260, "after_save", "soft", 3)) if tier == "thorough" else ((258, "before_save", "hard", None),):
+        yield {"lens": [9, 3, 17] * 87, "seed": 5, "ids": 1, "blank_lines": False, "dither": 1.0, "comp": False,
                "crash": {"k": k, "phase": phase, "kind": kind}, "workers": 0, "delays": None, "fresh": fresh, "file_prefix": None, "file_suffix": None}
     for n in counts:
         for k in range(n):
@@ -346,9 +371,10 @@ def _grid(tier):
                     for w in ((0, 2) if tier == "thorough" else ((0, 2) if (kind == "hard" and phase in ("before_save", "after_save") and k >= 1) else (0,))):
                         if w and phase == "in_compute":
                             continue
-                        yield {"lens": lens_all[:n], "seed": (11 + n) * (k % 2), "ids": n + k, "blank_lines": bool((n + k) % 2), "dither": 1.0, "comp": True,
+                        yield {"lens": lens_all[:n], "seed": (11 + n) * (k % 2), "ids": n + k, "blank_lines": bool((n + k) % 2), "dither": 1.0, "comp": "si" if (k + cli_crash.PHASES.index(phase)) % 5 == 3 else True,
                                "crash": {"k": k, "phase": phase, "kind": kind}, "workers": w, "delays": [7, 0, 3] if w else None,
                                "fresh": (1 + k) if (k + cli_crash.PHASES.index(phase) + (kind == "soft")) % 3 == 0 else None,
+                               "archive": (k + cli_crash.PHASES.index(phase) + (kind == "hard")) % 3 == 1,
                                "file_prefix": "feat_" if (k + cli_crash.PHASES.index(phase)) % 4 == 1 else None,
                                "file_suffix": ".feat" if (k + 2 * cli_crash.PHASES.index(phase) + (kind == "hard")) % 4 == 2 else None}
 
@@ -357,12 +383,12 @@ def clauses(tier):
     return [
         Clause("crash_resume", check_crash,
                "generated single crash point; non-trivial = the fault fired with a non-empty completed prefix (k >= 1) and dither on",
-               _crash_cases, quick=32, thorough=600, shrink_quick=True, quick_shards=16,
+               _crash_cases, quick=12, thorough=600, shrink_quick=False, quick_shards=6, quick_enum_shards=12,
                enumerate=_grid, enum_name="crash_point_grid"),
         Clause("crash_history", check_history,
                "2-3 successive crashes before the final clean run; non-trivial = at least two faults fired",
-               _history_cases, quick=16, thorough=300, quick_shards=8),
+               _history_cases, quick=6, thorough=300, quick_shards=3, shrink_quick=False),
         Clause("worker_counts", check_workers,
                "uninterrupted runs with --num-workers 1..3 and drawn per-item delays vs --num-workers 0; non-trivial = >= 2 utterances, dither on",
-               _worker_cases, quick=16, thorough=150, quick_shards=8),
+               _worker_cases, quick=6, thorough=150, quick_shards=3, shrink_quick=False),
     ]
